@@ -22,16 +22,17 @@ def task(work=2, prog=0, auto=False, rate=None, needF=False, comp=0, teams=(1,),
 
 
 def worker(team=1, skill=(), fskill=(), cost=1, solo=False, abs=(), mainwp=0):
+    # absence lists are kept in the order given (the library must not rely on them being sorted)
     return {"team": team, "skill": list(skill), "fskill": list(fskill), "cost": cost,
-            "solo": solo, "abs": sorted(abs), "mainwp": mainwp}
+            "solo": solo, "abs": list(abs), "mainwp": mainwp}
 
 
 def facility(wp=1, skill=(), cost=1, solo=False, abs=()):
-    return {"wp": wp, "skill": list(skill), "cost": cost, "solo": solo, "abs": sorted(abs)}
+    return {"wp": wp, "skill": list(skill), "cost": cost, "solo": solo, "abs": list(abs)}
 
 
 def opts(absL=(), autoAbs=False, rule="TSLACK", maxTime=40):
-    return {"absL": sorted(absL), "autoAbs": autoAbs, "rule": rule, "maxTime": maxTime}
+    return {"absL": list(absL), "autoAbs": autoAbs, "rule": rule, "maxTime": maxTime}
 
 
 def mkcfg(cid, Q, tasks, deps, nTeam, workers, facs=(), wps=(), comps=(), o=None):
@@ -68,6 +69,8 @@ def rand_cfg(rng, cid, nT=(2, 5), nW=(1, 4), kinds=KINDS, facilities=True, compo
     comps = [{"space": rng.choice([1, 2, 2]), "children": []} for _ in range(ncomp)]
     if nested and ncomp >= 2 and rng.random() < 0.4:
         comps[0]["children"] = list(range(2, ncomp + 1)) if rng.random() < 0.5 else [2]
+        if ncomp >= 3 and rng.random() < 0.3:
+            comps[1]["children"] = [3]          # component 3 has two parents
     tasks = []
     order = list(range(nt))
     rng.shuffle(order)
